@@ -1,6 +1,7 @@
 package simharness
 
 import (
+	"bytes"
 	"context"
 	"errors"
 	"fmt"
@@ -667,10 +668,42 @@ func runFanout(rc *RunCtx, o fanOpts) {
 		})
 	}
 
+	// C01: a concurrent task removes one pipeline while Sends are in flight. A Send that overlaps the removal
+	// may or may not include that pipeline, but a traversal that was started is carried through: node k+1
+	// runs if and only if node k returned an event
+	var removed *mPipe
+	rmStart, rmEnd := 0, 0
+	withRemover := rc.Prop == "C01" && !o.cancel && !o.small && !o.thresholds && tp.Choose(4, "remover") == 0
+	if withRemover {
+		var cands []*mPipe
+		for _, t := range types {
+			cands = append(cands, model.pipesOfType(t)...)
+		}
+		if len(cands) > 0 {
+			removed = cands[tp.Choose(len(cands), "remove-which")]
+			wait := tp.Choose(30, "remove-after")
+			viaRPAN := tp.Choose(2, "remove-how") == 0
+			sim.Spawn("remover", func() {
+				for i := 0; i < wait; i++ {
+					simrt.Yield("remover:wait")
+				}
+				rmStart = sim.Step
+				if viaRPAN {
+					// (nodes shared with other pipelines stay; the others are closed -- recNode has no Close)
+					broker.RemovePipelineAndNodes(context.Background(), el.EventType(removed.typ), el.PipelineID(removed.id))
+				} else {
+					broker.RemovePipeline(el.EventType(removed.typ), el.PipelineID(removed.id))
+				}
+				rmEnd = sim.Step
+				simrt.Probe("concurrent-removal")
+			})
+		}
+	}
+
 	// a concurrent task re-registers registered pipelines with their own, unchanged
 	// definition: the set of registered pipelines never changes, so every Send must
 	// still traverse each of them exactly once
-	if !o.stall && tp.Choose(3, "reregistrar") == 0 {
+	if !o.stall && removed == nil && tp.Choose(3, "reregistrar") == 0 {
 		var defs []el.Pipeline
 		for _, t := range types {
 			for _, p := range model.pipesOfType(t) {
@@ -819,7 +852,29 @@ func runFanout(rc *RunCtx, o fanOpts) {
 		for _, r := range recsBySend[s.ID] {
 			obs[recKey(r.Node, r.InLin)]++
 		}
-		if rc.Prop == "C01" {
+		if rc.Prop == "C01" && removed != nil && removed.typ == s.Type {
+			// the removed pipeline: certainly part of Sends that returned before the removal began, certainly
+			// not of Sends invoked after it returned, either way for the ones in between -- whole or not at all
+			var without [][]expStep
+			var pw []*mPipe
+			for i, p := range pipes {
+				if p != removed {
+					without = append(without, chains[i])
+					pw = append(pw, p)
+				}
+			}
+			_, whyWith := matchPrefixes(chains, obs, cancelled)
+			_, whyWithout := matchPrefixes(without, obs, cancelled)
+			before := rmStart > 0 && s.returnStep < rmStart
+			after := rmEnd > 0 && s.invokeStep > rmEnd
+			ok := (whyWith == "" && !after) || (whyWithout == "" && !before)
+			if rmStart == 0 {
+				ok = whyWith == ""
+			}
+			if !ok {
+				rc.Failf("C01.traversal", "concurrent-removal", "Send#%d (%s; steps %d..%d, pipeline %s removed during steps %d..%d): neither the traversal of all pipelines (%s) nor of all but the removed one (%s) explains the node invocations\npipelines: %s", s.ID, s.Type, s.invokeStep, s.returnStep, removed.id, rmStart, rmEnd, whyWith, whyWithout, describeChains(pipes, chains))
+			}
+		} else if rc.Prop == "C01" {
 			if _, why := matchPrefixes(chains, obs, cancelled); why != "" {
 				class := "traversal"
 				if cancelled {
@@ -1172,7 +1227,20 @@ func runStockSinksTerminate(rc *RunCtx) {
 	b.RegisterNode("chan", chSink)
 	b.RegisterNode("w", &writer.Sink{Writer: discardWriter{}})
 	b.RegisterNode("null", &el.FileSink{Path: "/dev/null", FileName: "x"})
-	sinks := []string{"chan", "w", "null"}
+	// the process's standard streams, failing now and then (a closed pipe): an error for that event, no more
+	var sob, seb bytes.Buffer
+	so, se := &faultyStream{buf: &sob, fail: map[int]int{}}, &faultyStream{buf: &seb, fail: map[int]int{}}
+	if tp.Choose(2, "stream-faults") == 0 {
+		for i := 0; i < 6; i++ {
+			so.fail[1+tp.Choose(12, "fail-stdout")] = 0
+			se.fail[1+tp.Choose(12, "fail-stderr")] = 0
+		}
+	}
+	simrt.SimStdout, simrt.SimStderr = so, se
+	defer func() { simrt.SimStdout, simrt.SimStderr = nil, nil }()
+	b.RegisterNode("stdout", &el.FileSink{Path: "/dev/stdout", FileName: "x"})
+	b.RegisterNode("stderr", &el.FileSink{Path: "/dev/stderr", FileName: "x"})
+	sinks := []string{"chan", "w", "null", "stdout", "stderr"}
 	nP := 1 + tp.Choose(3, "npipes")
 	usesChan := 0
 	var pdesc []string
